@@ -222,7 +222,17 @@ func (s *shape) genTy(t *rapid.T, depth int) Ty {
 		return genLeaf(t)
 	}
 	dot := rapid.Bool().Draw(t, "dot")
-	switch rapid.IntRange(0, 13).Draw(t, "tykind") {
+	switch rapid.IntRange(0, 14).Draw(t, "tykind") {
+	case 14:
+		// a union of two name types (prefixes on different branches, /name, a singleton): what a negated
+		// :match_prefix refines
+		pool := []Ty{tyPrefix("/foo"), tyPrefix("/a"), tyPrefix("/foobar"), tyPrefix("/foo/bar"), tyName, {K: "singleton", Name: "/b", Dot: dot}}
+		i := rapid.IntRange(0, len(pool)-1).Draw(t, "name1")
+		j := rapid.IntRange(0, len(pool)-2).Draw(t, "name2")
+		if j >= i {
+			j++
+		}
+		return Ty{K: "union", Args: []Ty{pool[i], pool[j]}, Dot: dot}
 	case 0, 1, 2, 3:
 		return genLeaf(t)
 	case 4, 5:
@@ -572,4 +582,164 @@ func joinTy(a, b Ty) Ty {
 		}
 	}
 	return Ty{K: "union", Args: alts}
+}
+
+// ---------------------------------------------------------------------------------------------
+// Model of the checker's meet (symbols.LowerBound) used by the exclusion K51-meet-underapproximates: the
+// checker judges a premise infeasible – and silently drops the type alternative – whenever the two types
+// that meet are incomparable by SetConforms, even if they have members in common. While K51 is a known
+// finding, two types may meet at a variable only if they are equal, comparable, or certainly disjoint.
+
+// alternatives flattens the top level of a type: union members, variants of a tagged union.
+func alternatives(ty Ty) []Ty {
+	switch ty.K {
+	case "union":
+		var res []Ty
+		for _, a := range ty.Args {
+			res = append(res, alternatives(a)...)
+		}
+		return res
+	case "tagged":
+		var res []Ty
+		for i := range ty.Fields {
+			res = append(res, ty.variantStruct(i))
+		}
+		return res
+	}
+	return []Ty{ty}
+}
+
+// stateCandidates over-approximates the types a variable of flowing type ty can have in one inference
+// state of the checker when the row structure behind it is not known: every union of a non-empty subset
+// of its alternatives.
+func stateCandidates(ty Ty) []Ty {
+	alts := alternatives(ty)
+	if len(alts) == 1 {
+		return []Ty{ty}
+	}
+	if len(alts) > 5 {
+		alts = alts[:5]
+	}
+	res := []Ty{ty}
+	for mask := 1; mask < 1<<len(alts); mask++ {
+		var sub []Ty
+		for i, a := range alts {
+			if mask&(1<<i) != 0 {
+				sub = append(sub, a)
+			}
+		}
+		if len(sub) == 1 {
+			res = append(res, sub[0])
+		} else {
+			res = append(res, tyUnion(sub...))
+		}
+	}
+	return res
+}
+
+func nameKind(ty Ty) bool { return ty.K == "name" || ty.K == "prefix" || ty.K == "singleton" }
+
+func below(name, prefix string) bool {
+	return len(name) > len(prefix) && name[:len(prefix)+1] == prefix+"/"
+}
+
+// leafConforms models SetConforms on two leaf types (both not /any).
+func leafConforms(a, b Ty) bool {
+	if a.key() == b.key() {
+		return true
+	}
+	switch {
+	case a.K == "prefix" && b.K == "name", a.K == "singleton" && b.K == "name":
+		return true
+	case a.K == "prefix" && b.K == "prefix", a.K == "singleton" && b.K == "prefix":
+		return below(a.Name, b.Name)
+	}
+	return false
+}
+
+// certainlyDisjoint is true only if the two types have no member in common.
+func certainlyDisjoint(a, b Ty) bool {
+	if a.K == "any" || b.K == "any" {
+		return false
+	}
+	if a.K == "union" || a.K == "tagged" || b.K == "union" || b.K == "tagged" {
+		for _, x := range alternatives(a) {
+			for _, y := range alternatives(b) {
+				if !certainlyDisjoint(x, y) {
+					return false
+				}
+			}
+		}
+		return true
+	}
+	shape := func(t Ty) string {
+		if nameKind(t) {
+			return "name"
+		}
+		return t.K
+	}
+	if shape(a) != shape(b) {
+		return true
+	}
+	switch shape(a) {
+	case "name":
+		return !leafConforms(a, b) && !leafConforms(b, a)
+	case "pair":
+		return certainlyDisjoint(a.Args[0], b.Args[0]) || certainlyDisjoint(a.Args[1], b.Args[1])
+	case "struct":
+		// membership needs exactly the listed fields (optional ones included)
+		if len(a.Fields) != len(b.Fields) {
+			return true
+		}
+		for _, fa := range a.Fields {
+			found := false
+			for _, fb := range b.Fields {
+				if fa.Label == fb.Label {
+					found = true
+					if certainlyDisjoint(fa.T, fb.T) {
+						return true
+					}
+				}
+			}
+			if !found {
+				return true
+			}
+		}
+		return false
+	}
+	return false // equal base types; lists and maps share their empty value
+}
+
+func leafOnly(ty Ty) bool {
+	for _, a := range alternatives(ty) {
+		if !a.isLeaf() || a.K == "any" {
+			return false
+		}
+	}
+	return ty.K != "tagged"
+}
+
+// meetSafe tells whether the checker's verdict on the meet of two state types is reliable: the types are
+// equal, one is /any, they are certainly disjoint, or – for types built from leaves only, where the
+// conformance rules are modelled exactly – one conforms to the other.
+func meetSafe(g, h Ty) bool {
+	if g.key() == h.key() || g.K == "any" || h.K == "any" || certainlyDisjoint(g, h) {
+		return true
+	}
+	if !leafOnly(g) || !leafOnly(h) {
+		return false // structured types: the model does not try to predict the conformance verdict
+	}
+	conf := func(x, y Ty) bool { // SetConforms: every alternative on the left conforms to some alternative on the right
+		for _, a := range alternatives(x) {
+			ok := false
+			for _, b := range alternatives(y) {
+				ok = ok || leafConforms(a, b)
+			}
+			if !ok {
+				return false
+			}
+		}
+		return true
+	}
+	return conf(g, h) || conf(h, g)
 }
